@@ -73,12 +73,20 @@ pub fn run_tool(text: &[u8], channel: u64, ordering: Option<&[u8]>, extra: &[Str
 fn gen_formula(rng: &mut Rng, allow_fix: bool, maxnames: u64) -> (GF, String, Vec<String>) {
     let k = 1 + rng.below(maxnames) as usize;
     let mut names: Vec<String> = Vec::new();
-    while names.len() < k { let n = rng.pick(&NAME_POOL).to_string(); if !names.contains(&n) { names.push(n); } }
+    // every fourth formula: names longer than the minimal column width, and names whose length in bytes differs from
+    // their length in characters (the width of a column is computed from the former, the padding from the latter)
+    let wide = rng.chance(1, 4);
+    while names.len() < k {
+        let n = if wide { rng.pick(&WIDE_POOL).to_string() } else { rng.pick(&NAME_POOL).to_string() };
+        if !names.contains(&n) { names.push(n); }
+    }
     let depth = 1 + rng.below(4) as u32;
     let gf = { let mut g = Gen { rng, names: names.clone(), allow_fix, big_consts: false, max_list: 3 }; g.gen(depth, &HashMap::new()) };
     let text = Printer { rng, noise: false }.print(&gf);
     (gf, text, names)
 }
+
+const WIDE_POOL: [&str; 9] = ["abcdefg", "\u{e9}", "\u{fc}n\u{ef}c\u{f6}d\u{e9}", "x_long_name_0", "\u{65e5}\u{672c}", "\u{3a9}mega'", "a", "b", "sixsix"];
 
 const FILTER_SPELLINGS: [&str; 15] = ["true", "True", "t", "T", "1", "false", "False", "f", "F", "0", "any", "Any", "a", "A", "*"];
 
@@ -184,10 +192,10 @@ fn runs(out: &mut dyn Write, tier: &str, rng: &mut Rng, st: &mut Stats, tag: &st
             Some(o) => (hex(o), std::str::from_utf8(o).map(classes_of).unwrap_or_default()),
             None => ("-".to_string(), String::new()),
         };
-        writeln!(out, "{}|run|{}|{}|{}|{}|{};f={};c={};b={}|{}|{}|{}|{}|{}|{}|{}", tag,
+        writeln!(out, "{}|run|{}|{}|{}|{}|{};f={};c={};b={}|{}|{}|{}|{}|{}|{}|{}|{}", tag,
             hex(text.as_bytes()), classes_of(&text), otext, ocl, flags, f, c,
             b.map(|x| x.to_string()).unwrap_or_else(|| "-".to_string()),
-            r.class, header, rows, vlines, rlines, same, gen_ast).unwrap();
+            r.class, header, rows, vlines, rlines, same, gen_ast, hex(&r.stdout)).unwrap();
         st.hit(&format!("exit.{}", r.class));
         st.hit(&format!("flags.{}", if flags.is_empty() { "none" } else { &flags }));
         st.hit(if ordering.is_some() { "ordering.file" } else { "ordering.none" });
@@ -218,6 +226,8 @@ pub fn c11(out: &mut dyn Write, tier: &str, rng: &mut Rng, st: &mut Stats) {
             // API form: NamedSymbol vector with distinct ids (permutation / sparse ids / extra names)
             let mut pool: Vec<String> = names.clone();
             if rng.chance(1, 2) { pool.push("extra_x".into()); pool.push("extra_y".into()); }
+            // unused names may also be words of the language: as names of the ordering they mean nothing
+            if rng.chance(1, 3) { pool.push(rng.pick(&["true", "or", "in", "and", "false", "not", "all"][..]).to_string()); }
             for k in (1..pool.len()).rev() { let j = rng.below(k as u64 + 1) as usize; pool.swap(k, j); }
             pool.truncate(1 + rng.below(pool.len() as u64) as usize);
             let mut next = 0usize;
